@@ -862,44 +862,34 @@ func c07Validator(r *core.Run, rule, rel, name string, needDot bool) {
 		r.Unres(rule, "validator:"+name, "function not found")
 		return
 	}
-	facts := runeRejections(fn)
 	fname := core.FuncName(fn)
-	has := func(op token.Token, k int64) bool {
-		for _, f := range facts {
-			if f.op == op && f.k == k {
-				return true
-			}
-		}
-		return false
+	cc := classOf(p, fn)
+	r.Analysed["validator_character_runs:"+name] = len(cc.Accept) + 1
+	if cc.Extractions == 0 || !cc.Accept['a'] || !cc.Accept['0'] {
+		r.Bad(rule, fname, "looks-at-every-character", p.Pos(fn.Pos()), fmt.Sprintf("the validator does not look at the characters of its argument, or accepts no ordinary character (character reads=%d accepts 'a'=%v)", cc.Extractions, cc.Accept['a']))
+		return
 	}
-	lowOK := false
-	for _, f := range facts {
-		if (f.op == token.LSS && f.k >= 33) || (f.op == token.LEQ && f.k >= 32) {
-			lowOK = true
+	low, high := "", ""
+	for _, v := range charReps {
+		if !cc.Accept[v] {
+			continue
 		}
-	}
-	highOK := false
-	for _, f := range facts {
-		if (f.op == token.GTR && f.k <= 126) || (f.op == token.GEQ && f.k <= 127) {
-			highOK = true
+		if v < 33 && low == "" {
+			low = fmt.Sprintf("%#x", v)
+		}
+		if v > 126 && high == "" {
+			high = fmt.Sprintf("%#x", v)
 		}
 	}
-	r.Check(lowOK, rule, fname, "rejects-runes-below-33", p.Pos(fn.Pos()), "space and control characters are rejected", "the token validator lets a rune below 33 (space / control) through: published subjects can contain whitespace")
-	r.Check(highOK, rule, fname, "rejects-runes-above-126", p.Pos(fn.Pos()), "DEL and non-ASCII are rejected", "the token validator lets a rune above 126 through")
+	r.Check(low == "", rule, fname, "rejects-runes-below-33", p.Pos(fn.Pos()), "space and control characters are rejected", "the token validator lets a rune below 33 (space / control) through ("+low+"): published subjects can contain whitespace")
+	r.Check(high == "", rule, fname, "rejects-runes-above-126", p.Pos(fn.Pos()), "DEL and non-ASCII are rejected", "the token validator lets a rune above 126 through ("+high+")")
 	for _, ch := range []rune{'*', '>', '?'} {
-		r.Check(has(token.EQL, int64(ch)), rule, fname, fmt.Sprintf("rejects-%q", ch), p.Pos(fn.Pos()), "rejected", fmt.Sprintf("the token validator accepts %q", ch))
+		r.Check(!cc.Accept[int(ch)], rule, fname, fmt.Sprintf("rejects-%q", ch), p.Pos(fn.Pos()), "rejected", fmt.Sprintf("the token validator accepts %q", ch))
 	}
 	if needDot {
-		r.Check(has(token.EQL, '.'), rule, fname, `rejects-'.'`, p.Pos(fn.Pos()), "rejected", "the token validator accepts the token separator")
+		r.Check(!cc.Accept['.'], rule, fname, `rejects-'.'`, p.Pos(fn.Pos()), "rejected", "the token validator accepts the token separator")
 	}
-	// empty string
-	emptyRejected := false
-	for k := range panicOrFalseGuards(fn) {
-		if strings.Contains(k, `==""`) || strings.Contains(k, "len ") && strings.HasSuffix(k, "==0") {
-			emptyRejected = true
-		}
-	}
-	r.Check(emptyRejected, rule, fname, "rejects-empty", p.Pos(fn.Pos()), "the empty token is rejected", "the token validator accepts the empty string")
+	r.Check(!cc.EmptyAccept, rule, fname, "rejects-empty", p.Pos(fn.Pos()), "the empty token is rejected", "the token validator accepts the empty string")
 }
 
 func qualFn(rel, name string) string {
@@ -1108,17 +1098,19 @@ func c07Meta(r *core.Run, root []*ssa.Function) {
 	}
 	nilRet := false
 	for _, ret := range core.Returns(metaFn) {
-		if c, ok := ret.Results[0].(*ssa.Const); ok && c.IsNil() {
-			// dominated by len(rheader)==0 and status==0
-			n := 0
-			for _, ed := range dominatingEdges(ret) {
-				d := describeCond(ed)
-				if d == "len "+rheader.String()+"==0" || d == status.String()+"==0" {
-					n++
+		for _, src := range phiSources(ret.Results[0]) {
+			if c, ok := src.V.(*ssa.Const); ok && c.IsNil() {
+				// produced under len(rheader)==0 and status==0
+				n := 0
+				for _, ed := range srcEdges(ret, src) {
+					d := describeCond(ed)
+					if d == "len "+rheader.String()+"==0" || d == status.String()+"==0" {
+						n++
+					}
 				}
-			}
-			if n == 2 {
-				nilRet = true
+				if n == 2 {
+					nilRet = true
+				}
 			}
 		}
 	}
